@@ -51,15 +51,16 @@ type stBackup struct {
 }
 
 type stSess struct {
-	slots   map[int]*stSlot
-	cur     int
-	backups map[int]*stBackup
-	sw      *badger.StreamWriter
-	swPreList []string      // contents of the destination before the stream writer started
-	swData  []*pb.KV        // everything written through the stream writer
-	swOld   map[uint64]bool // table ids present when the stream writer was prepared
-	lastKVs [][]*pb.KV      // output of the last stream op, one list per range
-	st      *Stats
+	slots     map[int]*stSlot
+	cur       int
+	backups   map[int]*stBackup
+	sw        *badger.StreamWriter
+	swPreList []string         // contents of the destination before the stream writer started
+	swData    []*pb.KV         // everything written through the stream writer
+	swOld     map[uint64]bool  // table ids present when the stream writer was prepared
+	f20       map[*mvSess]bool // a level-jumping compaction already changed a read of this DB
+	lastKVs   [][]*pb.KV       // output of the last stream op, one list per range
+	st        *Stats
 }
 
 func (s *stSess) closeAll() {
@@ -316,7 +317,17 @@ func (s *stSess) compactOp(mv *mvSess, kv map[string]string, emit func(string, s
 				skipped = i
 			}
 		}
+		if tag == "C12-read-wrong" && s.f20[mv] {
+			// judgeStable also compares every read with the history: a read an earlier
+			// level-jumping compaction made wrong stays wrong
+			fail("F20:compaction-skips-stream-written-level", "sequel of the earlier level-jumping compaction in this session: "+msg)
+			return
+		}
 		if strings.HasPrefix(tag, "C12-read") && thisL >= 0 && skipped >= 0 {
+			if s.f20 == nil {
+				s.f20 = map[*mvSess]bool{}
+			}
+			s.f20[mv] = true
 			fail("F20:compaction-skips-stream-written-level", fmt.Sprintf("level %d -> %d compaction with level %d non-empty (tables put there by StreamWriter.PrepareIncremental, above the base level): %s", thisL, nextL, skipped, msg))
 			return
 		}
@@ -755,7 +766,7 @@ func (s *stSess) doStream(w []string, line string, emit func(string, string), fa
 // stream-race numgo=N: the production Orchestrate, free running, while another goroutine commits
 // sum-preserving transfers between accounts. Nothing about the interleaving is controlled, so
 // the op is the last of its session and its output is just "ok"; what is judged: all producers
-// read at one timestamp and the delivered balances add up (they do not always: finding F7).
+// read at one timestamp and the delivered balances add up (before commit 5000444 they did not always: finding F7).
 func (s *stSess) doStreamRace(w []string, line string, emit func(string, string), fail func(string, string)) {
 	mv := s.curMv()
 	kv := kvWords(w[1:])
